@@ -33,6 +33,12 @@ Observe(name, seen, flag) ==
   /\ bad' = IF Missing(name, seen) = {} THEN bad ELSE bad \cup {flag}
   /\ UNCHANGED <<doc, fmt, dir>>
 
+\* the export command writes the document to a file: whatever that file held before (an earlier, longer export), it
+\* then holds exactly what the command writes to a fresh path
+Written(ok, same) ==
+  /\ bad' = bad \cup (IF ok /\ same THEN {} ELSE {"RewrittenFileDiffers"})
+  /\ UNCHANGED <<doc, fmt, dir, stage>>
+
 \* design-level sanity: a carrier that reports exactly the facts is never flagged, and a run ends
 CONSTANTS Docs, Formats
 NextFaithful ==
